@@ -324,7 +324,7 @@ Lemma lex_dec lead m sc s rest : spell (TDec lead m sc) s -> after_ok (TDec lead
 Proof.
   cbn [spell]. intros (ip & fp & -> & Hip & Hfp & Hl & Hv & Hlead) Ha.
   assert (Hr : match rest with c :: _ => is_digit c = false | [] => True end).
-  { destruct rest as [|c r]; [exact I|]. simpl in Ha. apply not_word_not_digit, Ha. }
+  { destruct rest as [|c r]; [exact I|]. simpl in Ha. exact Ha. }
   destruct lead.
   - destruct ip as [|c ip']; [congruence|].
     assert (Hc : is_digit c = true) by (unfold digits_ok in Hip; cbn [forallb] in Hip; apply andb_prop in Hip; tauto).
@@ -540,4 +540,203 @@ Proof.
   intros s ss gs g0 Hwf Hlex HS Hg Hgs. unfold parse_text.
   rewrite (lex_roundtrip (print_stmt s) ss gs g0 Hlex HS); [apply stmt_roundtrip, Hwf| |exact Hgs].
   pose proof (print_stmt_nonempty s Hwf). destruct (print_stmt s); [congruence|exact Hg].
+Qed.
+
+(* ---------------------------------------------------------------------- *)
+(* the canonical spelling [render_tok] is a spelling (the hypotheses of the theorems are satisfiable
+   for every token list the lexer can produce) *)
+
+Lemma digits_val_snoc ds d : digits_val (ds ++ [d]) = (digits_val ds * 10 + digit_val d)%N.
+Proof. unfold digits_val. rewrite fold_left_app. reflexivity. Qed.
+
+Lemma size_nat_le a b : (a <= b)%N -> (N.size_nat a <= N.size_nat b)%nat.
+Proof.
+  destruct a as [|p], b as [|q]; cbn [N.size_nat]; try lia.
+  intros H. destruct (Pos.eq_dec p q) as [->|Hne]; [lia|]. apply Pos.size_nat_monotone. lia.
+Qed.
+Lemma size_nat_div2 n : N.size_nat (N.div2 n) = pred (N.size_nat n).
+Proof. destruct n as [|[p|p|]]; reflexivity. Qed.
+Lemma size_div10 n : (10 <= n)%N -> (S (N.size_nat (n / 10)) <= N.size_nat n)%nat.
+Proof.
+  intros H. assert (Hq : (n / 10 <= N.div2 n)%N) by (rewrite N.div2_div; apply N.div_le_compat_l; lia).
+  apply size_nat_le in Hq. rewrite size_nat_div2 in Hq.
+  assert (1 <= N.size_nat n)%nat by (destruct n; [lia|cbn; destruct p; cbn; lia]). lia.
+Qed.
+
+Lemma digits_fuel_S f n acc : digits_fuel (S f) n acc =
+  if (n <? 10)%N then (48 + Z.of_N n) :: acc else digits_fuel f (n / 10)%N ((48 + Z.of_N (n mod 10)%N) :: acc).
+Proof. reflexivity. Qed.
+
+Lemma digits_fuel_spec : forall f n acc, (N.size_nat n <= f)%nat ->
+  exists ds, digits_fuel (S f) n acc = ds ++ acc /\ ds <> [] /\ forallb is_digit ds = true /\ digits_val ds = n.
+Proof.
+  induction f as [|f IH]; intros n acc Hf; rewrite digits_fuel_S; destruct (n <? 10)%N eqn:E.
+  - exists [48 + Z.of_N n]. repeat split; [discriminate| |].
+    + cbn [forallb]. unfold is_digit. lia.
+    + unfold digits_val, digit_val. cbn [fold_left]. replace (48 + Z.of_N n - 48) with (Z.of_N n) by lia.
+      rewrite N2Z.id. lia.
+  - exfalso. pose proof (size_div10 n ltac:(lia)). lia.
+  - exists [48 + Z.of_N n]. repeat split; [discriminate| |].
+    + cbn [forallb]. unfold is_digit. lia.
+    + unfold digits_val, digit_val. cbn [fold_left]. replace (48 + Z.of_N n - 48) with (Z.of_N n) by lia.
+      rewrite N2Z.id. lia.
+  - pose proof (size_div10 n ltac:(lia)) as Hs.
+    destruct (IH (n / 10)%N ((48 + Z.of_N (n mod 10)) :: acc) ltac:(lia)) as (ds & E1 & Hne & Hd & Hv).
+    exists (ds ++ [48 + Z.of_N (n mod 10)]). repeat split.
+    + rewrite E1, <- app_assoc. reflexivity.
+    + destruct ds; discriminate.
+    + rewrite forallb_app, Hd. cbn [forallb andb]. rewrite andb_true_r. pose proof (N.mod_lt n 10 ltac:(lia)).
+      unfold is_digit. apply andb_true_intro. split; apply Z.leb_le; clear - H;
+        set (x := (n mod 10)%N) in *; clearbody x; lia.
+    + rewrite digits_val_snoc, Hv. unfold digit_val. replace (48 + Z.of_N (n mod 10) - 48) with (Z.of_N (n mod 10)) by lia.
+      rewrite N2Z.id. rewrite (N.div_mod' n 10) at 3. lia.
+Qed.
+
+Lemma digits_spec n : digits n <> [] /\ forallb is_digit (digits n) = true /\ digits_val (digits n) = n.
+Proof.
+  unfold digits. destruct (digits_fuel_spec (N.size_nat n) n [] (le_n _)) as (ds & E & H1 & H2 & H3).
+  rewrite E, app_nil_r. auto.
+Qed.
+
+Fixpoint pow10 (k : nat) : N := match k with O => 1%N | S k' => (10 * pow10 k')%N end.
+
+(* no leading zero: a number with k+1 digits is at least 10^k *)
+Lemma digits_fuel_len : forall f n acc, (N.size_nat n <= f)%nat ->
+  exists ds, digits_fuel (S f) n acc = ds ++ acc /\ (length ds = 1%nat \/ (pow10 (length ds - 1) <= n)%N).
+Proof.
+  induction f as [|f IH]; intros n acc Hf; rewrite digits_fuel_S; destruct (n <? 10)%N eqn:E.
+  - exists [48 + Z.of_N n]. split; [reflexivity|left; reflexivity].
+  - exfalso. pose proof (size_div10 n ltac:(lia)). lia.
+  - exists [48 + Z.of_N n]. split; [reflexivity|left; reflexivity].
+  - pose proof (size_div10 n ltac:(lia)) as Hs.
+    destruct (IH (n / 10)%N ((48 + Z.of_N (n mod 10)) :: acc) ltac:(lia)) as (ds & E1 & Hl).
+    exists (ds ++ [48 + Z.of_N (n mod 10)]). split; [rewrite E1, <- app_assoc; reflexivity|]. right.
+    rewrite app_length. cbn [length]. replace (length ds + 1 - 1)%nat with (length ds) by lia.
+    pose proof (N.div_mod' n 10) as Hdm. pose proof (N.mod_lt n 10 ltac:(lia)) as Hr.
+    assert (H10 : (10 <= n)%N) by lia.
+    set (q := (n / 10)%N) in *. set (r := (n mod 10)%N) in *. clearbody q r.
+    destruct Hl as [Hl|Hl].
+    + rewrite Hl. cbn [pow10]. lia.
+    + destruct (length ds) as [|k]; [cbn [pow10]; lia|]. cbn [pow10]. cbn [Nat.sub] in Hl. rewrite Nat.sub_0_r in Hl. lia.
+Qed.
+
+Lemma pow10_mono a b : (a <= b)%nat -> (pow10 a <= pow10 b)%N.
+Proof. induction 1; [lia|]. cbn [pow10]. lia. Qed.
+
+Lemma digits_len_le n k : (n < pow10 k)%N -> (1 <= k)%nat -> (length (digits n) <= k)%nat.
+Proof.
+  intros Hn Hk. unfold digits. destruct (digits_fuel_len (N.size_nat n) n [] (le_n _)) as (ds & E & Hl).
+  rewrite E, app_nil_r. destruct Hl as [Hl|Hl]; [lia|].
+  destruct (le_lt_dec (length ds) k) as [|Hgt]; [assumption|]. exfalso.
+  pose proof (pow10_mono k (length ds - 1) ltac:(lia)). lia.
+Qed.
+
+Lemma digits_val_zeros j d : digits_val (repeat 48 j ++ d) = digits_val d.
+Proof.
+  unfold digits_val. rewrite fold_left_app. f_equal. induction j as [|j IH]; [reflexivity|]. cbn [repeat fold_left].
+  exact IH.
+Qed.
+Lemma forallb_repeat48 j : forallb is_digit (repeat 48 j) = true.
+Proof. induction j; [reflexivity|]. cbn [repeat forallb]. rewrite IHj. reflexivity. Qed.
+
+Lemma pad_digits w n : forallb is_digit (pad w (digits n)) = true /\ digits_val (pad w (digits n)) = n
+  /\ (w <= length (pad w (digits n)))%nat /\ ((length (digits n) <= w)%nat -> length (pad w (digits n)) = w).
+Proof.
+  destruct (digits_spec n) as (_ & Hd & Hv). unfold pad. repeat split.
+  - rewrite forallb_app, forallb_repeat48, Hd. reflexivity.
+  - rewrite digits_val_zeros. exact Hv.
+  - rewrite app_length, repeat_length. lia.
+  - intros H. rewrite app_length, repeat_length. lia.
+Qed.
+
+Lemma forallb_firstn_skipn {A} (p : A -> bool) k l : forallb p l = true ->
+  forallb p (firstn k l) = true /\ forallb p (skipn k l) = true.
+Proof.
+  intros H. rewrite <- (firstn_skipn k l), forallb_app in H. apply andb_prop in H. exact H.
+Qed.
+
+Lemma ident_chars n : forallb (fun x => is_lower x || is_digit x || (x =? 95)) n = true ->
+  forallb is_word n = true /\ map lower n = n.
+Proof.
+  induction n as [|c n IH]; [split; reflexivity|]. cbn [forallb map]. intros H. apply andb_prop in H.
+  destruct H as [Hc Hn]. destruct (IH Hn) as [H1 H2]. rewrite H1, H2. split.
+  - rewrite andb_true_r. unfold is_word, is_alpha, is_upper, is_lower, is_digit in *. lia.
+  - f_equal. unfold lower, is_upper, is_lower, is_digit in *. destruct ((65 <=? c) && (c <=? 90)) eqn:E; lia.
+Qed.
+
+Lemma ident_word n : ident_ok n = true -> word_ok n /\ map lower n = n.
+Proof.
+  unfold ident_ok. destruct n as [|c n']; [discriminate|]. intros H.
+  apply andb_prop in H. destruct H as [H _]. apply andb_prop in H. destruct H as [Hc Hn].
+  destruct (ident_chars (c :: n') Hn) as [Hw Hl]. split; [|exact Hl]. split; [exact Hw|].
+  unfold is_alpha, is_upper, is_lower in *. lia.
+Qed.
+
+Lemma kw_upper k : map upper (kw_spelling k) = kw_spelling k.
+Proof. destruct k; vm_compute; reflexivity. Qed.
+
+Lemma spell_canonical t : tok_ok t = true -> spell t (render_tok t).
+Proof.
+  intros Hok. destruct t; cbn [spell render_tok tok_ok] in *; try reflexivity.
+  - apply kw_upper.
+  - apply ident_word, Hok.
+  - apply digits_spec.
+  - (* decimal *)
+    set (w := if lead then S scale else scale). destruct (pad_digits w m) as (Hd & Hv & Hlen & Hex).
+    set (ds := pad w (digits m)) in *. set (k := (length ds - scale)%nat).
+    destruct (forallb_firstn_skipn is_digit k ds Hd) as (H1 & H2).
+    exists (firstn k ds), (skipn k ds). split; [reflexivity|]. split; [exact H1|]. split; [exact H2|].
+    assert (Hsc : (scale <= length ds)%nat) by (unfold w in Hlen; destruct lead; lia).
+    split; [rewrite skipn_length; unfold k; lia|]. split; [rewrite firstn_skipn; exact Hv|].
+    destruct lead.
+    + intros E. apply (f_equal (@length _)) in E. rewrite firstn_length in E. unfold k, w in *. cbn [length] in E. lia.
+    + apply andb_prop in Hok. destruct Hok as [Hs1 Hs2]. apply Nat.leb_le in Hs1, Hs2.
+      assert (length ds = scale) by (apply Hex; exact Hs2). unfold k. rewrite H, Nat.sub_diag. cbn [firstn skipn].
+      split; [reflexivity|]. intros E. rewrite E in H. cbn [length] in H. lia.
+  - (* date *)
+    unfold valid_date in Hok. repeat (apply andb_prop in Hok; destruct Hok as [Hok ?]).
+    assert (Hy : (y <= 9999)%N) by lia. assert (Hm : (m <= 12)%N) by lia.
+    assert (Hdd : (d <= 31)%N) by (unfold dim in *; destruct (m =? 2)%N, (leap y), ((m =? 4) || (m =? 6) || (m =? 9) || (m =? 11))%N; lia).
+    destruct (pad_digits 4 y) as (Y1 & Y2 & _ & Y4). destruct (pad_digits 2 m) as (M1 & M2 & _ & M4).
+    destruct (pad_digits 2 d) as (D1 & D2 & _ & D4).
+    specialize (Y4 (digits_len_le y 4 ltac:(cbn; lia) ltac:(lia))).
+    specialize (M4 (digits_len_le m 2 ltac:(cbn; lia) ltac:(lia))).
+    specialize (D4 (digits_len_le d 2 ltac:(cbn; lia) ltac:(lia))).
+    destruct (pad 4 (digits y)) as [|a [|b [|c [|e [|? ?]]]]]; try discriminate Y4.
+    destruct (pad 2 (digits m)) as [|f [|g [|? ?]]]; try discriminate M4.
+    destruct (pad 2 (digits d)) as [|h [|i [|? ?]]]; try discriminate D4.
+    exists a, b, c, e, f, g, h, i. split; [reflexivity|]. split; [|auto].
+    unfold digits_ok. cbn [forallb] in *. rewrite andb_true_r in *.
+    repeat (apply andb_prop in Y1; destruct Y1 as [? Y1]). repeat (apply andb_prop in M1; destruct M1 as [? M1]).
+    repeat (apply andb_prop in D1; destruct D1 as [? D1]).
+    clear - H4 H5 H6 H7 Y1 H8 H9 M1 H10 H11 D1. unfold is_digit in *. lia.
+  - exists 115. split; reflexivity.
+  - destruct (ident_word s Hok) as (Hw & Hl). exists [], s, [], 115. cbn [app].
+    split; [reflexivity|]. repeat split; try apply sep_nil; try apply Hw; assumption.
+Qed.
+
+(* the canonical text: every token in its canonical spelling followed by one blank *)
+Lemma render_weave ts : render ts = render_text [] (map render_tok ts) (map (fun _ => [32]) ts).
+Proof.
+  unfold render, render_text. cbn [app]. induction ts as [|t ts IH]; [reflexivity|].
+  cbn [map concat weave]. rewrite IH, <- app_assoc. reflexivity.
+Qed.
+
+Theorem lex_render_canonical : forall ts, forallb tok_ok ts = true -> lex (render ts) = Some ts.
+Proof.
+  intros ts Hok. rewrite render_weave. apply lex_roundtrip; [exact Hok| | |].
+  - induction ts as [|t ts IH]; [constructor|]. cbn [forallb map] in *. apply andb_prop in Hok.
+    constructor; [apply spell_canonical; tauto|apply IH; tauto].
+  - destruct ts; [apply sep_end_sep|]; apply sep_nil.
+  - clear Hok. assert (S32 : sep [32]) by (apply sep_space; [reflexivity|apply sep_nil]).
+    induction ts as [|t ts IH]; [exact I|]. destruct ts as [|t2 ts2].
+    + cbn [map seps_ok]. apply sep_end_sep, S32.
+    + change (seps_ok (t :: t2 :: ts2) ([32] :: map (fun _ => [32]) (t2 :: ts2))).
+      cbn [seps_ok]. split; [exact S32|]. split; [discriminate|exact IH].
+Qed.
+
+Theorem text_roundtrip_canonical : forall s, wf_stmt s = true -> lex_ok (print_stmt s) = true ->
+  parse_text (render (print_stmt s)) = Some (stmt_erase s).
+Proof.
+  intros s Hwf Hlex. unfold parse_text. rewrite lex_render_canonical by exact Hlex. apply stmt_roundtrip, Hwf.
 Qed.
